@@ -60,7 +60,7 @@ func genC12(g *gen) {
 				}
 				s := pool[g.r.IntN(len(pool))]
 				op := g.callOp(m, s, 0.15, 0.1)
-				for _, p := range op.Plans {
+				for _, p := range plansInOrder(op.Plans) {
 					if s.Kind == "cstream" {
 						p.StreamK = g.r.IntN(4)
 					}
@@ -277,7 +277,7 @@ func genC18(g *gen) {
 		for i := 0; i < nOps; i++ {
 			s := pool[g.r.IntN(len(pool))]
 			op := g.callOp(0, s, 0.08, 0.15)
-			for _, p := range op.Plans {
+			for _, p := range plansInOrder(op.Plans) {
 				if s.Kind == "cstream" {
 					p.StreamK = g.r.IntN(4)
 					p.StreamEnd = pick(g.r, "", "err")
